@@ -61,8 +61,8 @@ let check_one path =
       let un = if v then [] else undercounted rd h in
       let ov = if v then [] else overcounted rd h in
       let t1 = tables_ok rd h true and t0 = tables_ok rd h false in
-      Printf.printf "%s supported=1 valid=%d safe=%d safe_sl1=%d tables_strict=%d tables=%d leaked=%s under=%s over=%s cb=%s ro=%s size=%s l1=%s/%s rt=%s/%s v=%s\n"
-        path (if v then 1 else 0) (if s then 1 else 0) (if safeb_short_l1 rd h then 1 else 0) (if t1 then 1 else 0) (if t0 then 1 else 0)
+      Printf.printf "%s supported=1 valid=%d valid_sl1=%d safe=%d safe_sl1=%d tables_strict=%d tables=%d leaked=%s under=%s over=%s cb=%s ro=%s size=%s l1=%s/%s rt=%s/%s v=%s\n"
+        path (if v then 1 else 0) (if validb_short_l1 rd h then 1 else 0) (if s then 1 else 0) (if safeb_short_l1 rd h then 1 else 0) (if t1 then 1 else 0) (if t0 then 1 else 0)
         (list_str lk) (list_str un) (list_str ov)
         (string_of_n h.h_cb) (string_of_n h.h_ro) (string_of_n h.h_size)
         (string_of_n h.h_l1_off) (string_of_n h.h_l1_size) (string_of_n h.h_rt_off) (string_of_n h.h_rt_clusters)
